@@ -97,6 +97,18 @@ fn main() {
     println!("cargo:rustc-link-search=native={}", out);
     println!("cargo:rustc-link-lib=static=cdriver");
 
+    // ---- clock seam (lane K): a preloadable object that skews the wall clock
+    println!("cargo:rerun-if-changed=cdriver/clockskew.c");
+    let so = format!("{}/libclockskew.so", out);
+    let _ = fs::remove_file(&so);
+    let r = Command::new(&cc)
+        .args(["-O1", "-fPIC", "-shared", "cdriver/clockskew.c", "-o"])
+        .arg(&so)
+        .arg("-ldl")
+        .output();
+    let so_ok = matches!(r, Ok(ref o) if o.status.success());
+    println!("cargo:rustc-env=DNSSIM_CLOCKSKEW_SO={}", if so_ok { so.as_str() } else { "" });
+
     // ---- signature probes
     let mut failures: Vec<(String, String)> = Vec::new();
     if !Path::new(&header).exists() {
